@@ -241,7 +241,7 @@ func genExpandedNil(g *vlib.G) {
 			sp.w[e[0]][e[1]] = 1
 			sp.w[e[1]][e[0]] = 1
 		}
-		return build(sp, 0, ordAsc)
+		return build(sp, 0, ordAsc, contSimple)
 	}
 	walk := func(t *vlib.T, what string, top any, expanded func(any) any) {
 		cur := top
@@ -293,6 +293,106 @@ func genExpandedNil(g *vlib.G) {
 				return e
 			})
 			t.Nontrivial()
+		})
+	}
+}
+
+// ---- ModularMultiplexScore / SizeMultiplex / WeightMultiplex through Profile ----
+
+func checkProfileMultiplex(t *vlib.T, s graphSpace, idxs []int, idKind, order int) {
+	outcome := ""
+	for wi, ws := range [][]float64{nil, {1, 0.5}, {1, -1}} {
+		m := buildMultiplex(s, idxs, ws, idKind, order)
+		if m.sp[0].edges()+m.sp[1].edges() == 0 {
+			t.Outcome("no-edges-skipped")
+			return
+		}
+		for _, weight := range []bool{false, true} {
+			score, name := community.SizeMultiplex, "SizeMultiplex"
+			if weight {
+				score, name = community.WeightMultiplex, "WeightMultiplex"
+			}
+			all := (wi+idxs[0]+idxs[1])%2 == 1
+			fn := community.ModularMultiplexScore(m.g, ws, all, score, 2, rand.NewPCG(5, 6))
+			p, err := community.Profile(fn, wi%2 == 1, 0.25, 0.25, 4)
+			t.Count("profiles", 1)
+			what := fmt.Sprintf("Profile(ModularMultiplexScore(layers %s, weights %v, all=%v, %s))", m, ws, all, name)
+			if err != nil {
+				outcome += "E" // not guaranteed to be monotone
+				continue
+			}
+			if msg := checkProfileShape(p, 0.25, 4); msg != "" {
+				t.Failf("%s: %s; %+v", what, msg, p)
+				return
+			}
+			for i, iv := range p {
+				cs := iv.Reduced.Communities()
+				seen := map[int64]bool{}
+				var w float64
+				for _, c := range cs {
+					for _, u := range c {
+						if seen[u.ID()] {
+							t.Failf("%s interval %d: node %d twice in %v", what, i, u.ID(), cs)
+							return
+						}
+						seen[u.ID()] = true
+						for _, v := range c {
+							for l, sp := range m.sp {
+								iu, iv := indexOfID(m.ids, u.ID()), indexOfID(m.ids, v.ID())
+								if iu < 0 || iv < 0 {
+									t.Failf("%s interval %d: unknown node in %v", what, i, cs)
+									return
+								}
+								if sp.has(iu, iv) {
+									if layerW(ws, l) < 0 {
+										w -= math.Abs(sp.a(iu, iv))
+									} else {
+										w += math.Abs(sp.a(iu, iv))
+									}
+								}
+							}
+						}
+					}
+				}
+				if len(seen) != s.n {
+					t.Failf("%s interval %d: Communities() %v is not a partition of the nodes", what, i, cs)
+					return
+				}
+				want := 1 / float64(len(cs))
+				if weight {
+					want = w
+				}
+				if iv.Score != want {
+					t.Failf("%s interval %d [%v,%v): Score %v, but its Reduced %v scores %v from scratch", what, i, iv.Low, iv.High, iv.Score, cs, want)
+				}
+			}
+			outcome += fmt.Sprint(min(len(p), 3))
+		}
+	}
+	t.Nontrivial()
+	t.Outcome(fmt.Sprintf("%s intervals/errors=%s", s.name(), outcome))
+	t.Detail(map[string]any{"layers": fmt.Sprint(idxs)})
+}
+
+func indexOfID(ids []int64, id int64) int {
+	for i, x := range ids {
+		if x == id {
+			return i
+		}
+	}
+	return -1
+}
+
+func genProfileMultiplex(g *vlib.G) {
+	for _, x := range []tupleSpace{
+		{s: graphSpace{n: 3}, L: 2},
+		{s: graphSpace{n: 3, directed: true}, L: 2, stride: vlib.Pick(g, 37, 5), offset: 3},
+		{s: graphSpace{n: 3, weighted: true}, L: 2, stride: vlib.Pick(g, 11, 1), offset: 2},
+		{s: graphSpace{n: 4}, L: 2, stride: vlib.Pick(g, 41, 5), offset: 7},
+	} {
+		x := x
+		forLayerTuples(x.s, x.L, x.stride, x.offset, func(key string, idxs []int, idKind, order int) {
+			g.Case(key, func(t *vlib.T) { checkProfileMultiplex(t, x.s, idxs, idKind, order) })
 		})
 	}
 }
